@@ -84,6 +84,52 @@ def path_str(p, coll):
     return "/" + "/".join(p) + ("/" if coll and p else "") if p else "/"
 
 
+WIRE_HEADERS = {"if_match": "HTTP_IF_MATCH", "if_none_match": "HTTP_IF_NONE_MATCH", "depth": "HTTP_DEPTH", "overwrite": "HTTP_OVERWRITE"}
+
+
+def wire_of(r):
+    """the conditional headers of request `r` as the client sends them (None = header absent).  `r["wire"]` gives them
+    literally; otherwise they follow from the generator's fields.  What they MEAN is decided by the Lean model
+    (RadicaleModel/CondHeaders.lean), not here."""
+    w = {"if_match": None, "if_none_match": None, "depth": None, "overwrite": None}
+    m = r["method"]
+    if m in ("PUT", "DELETE") and r.get("if_match_present"):
+        w["if_match"] = r["if_match_value"]
+    if m == "PUT" and r.get("if_none_match_star"):
+        w["if_none_match"] = "*"
+    if m == "MOVE":
+        w["overwrite"] = "T" if r.get("overwrite") else "F"
+    if m == "PROPFIND":
+        w["depth"] = "1" if r.get("depth1") else "0"
+    w.update(r.get("wire") or {})
+    return w
+
+
+ODD_OVERWRITE = [None, "t", "true", " T", "T ", "", "F", "f", "TT"]          # none of these is the literal "T"
+ODD_DEPTH_CHILDREN = ["infinity", "", "00", "1 ", " 0", "2", "Infinity"]      # none of these is the literal "0"
+ODD_IF_NONE_MATCH = [" *", "**", '"*"', "* ", '"x"', ""]                      # none of these is the literal "*"
+
+
+def vary_wire(rng, r, p=0.25):
+    """now and then replace a header by an unusual but legal-to-send text (absent, other case, padding, other values)"""
+    m = r["method"]
+    if rng.random() >= p:
+        return r
+    if m == "MOVE":
+        r["wire"] = {"overwrite": rng.choice(ODD_OVERWRITE + ["T", "T"])}
+    elif m == "PROPFIND":
+        r["wire"] = {"depth": rng.choice(ODD_DEPTH_CHILDREN + [None, "0", "1"])}
+    elif m == "PUT" and not r.get("if_match_present") and not r.get("if_none_match_star"):
+        r["wire"] = {"if_none_match": rng.choice(ODD_IF_NONE_MATCH + ["*"]), "if_match": rng.choice([None, None, ""])}
+    elif m == "DELETE" and not r.get("if_match_present"):
+        r["wire"] = {"if_match": rng.choice(["", "*", " *", "**"])}
+    return r
+
+
+import collections
+WIRE_SEEN = collections.Counter()     # header texts sent, per method (for the evidence)
+
+
 class EtagMap:
     """real ETag strings <-> model ETag tokens, must stay a bijection"""
 
@@ -126,6 +172,7 @@ class Sim:
         self.permit_delete = permit_delete
         self.permit_overwrite = permit_overwrite
         self.etags = EtagMap()
+        self.wire_seen = WIRE_SEEN
         self.sid = ctx.driver.ask1({"m": "dav", "op": "new"})["sid"] if ctx.driver else None
         self.model_store = None
 
@@ -215,6 +262,12 @@ class Sim:
             if r.get("book"):
                 body = body.replace("C:calendar-multiget", "CR:addressbook-multiget").replace(
                     'xmlns:C="urn:ietf:params:xml:ns:caldav"', 'xmlns:CR="urn:ietf:params:xml:ns:carddav"')
+        for k, v in wire_of(r).items():
+            if m == "REPORT" and k == "depth":
+                continue
+            env.pop(WIRE_HEADERS[k], None)
+            if v is not None:
+                env[WIRE_HEADERS[k]] = v
         return m, path, body, env
 
     # ---- canonical observation of the real answer ---------------------------------------------------------
@@ -286,10 +339,26 @@ class Sim:
             req = dict(r, m="dav", op="request", sid=self.sid, user=user, rights_default=self.rights_default,
                        rights=[{"user": u, "path": list(p), "perms": perms} for (u, p), perms in self.rights_table.items()],
                        permit_delete=self.permit_delete, permit_overwrite=self.permit_overwrite)
-            if r.get("if_match_present"):
-                req["if_match"] = self.etags.model_of(r["if_match_value"])
-                if r["method"] == "DELETE" and r["if_match_value"] == "*":
-                    req["if_match_present"] = False
+            w = wire_of(r)
+            if any(v is not None for v in w.values()):
+                # the meaning of the header texts comes from the Lean model (CondHeaders.digestPut / digestDelete / overwrites /
+                # listsChildren); this side only supplies the table ETag text -> content id observed so far
+                table = [[k, json.loads(v)] for k, v in self.etags.r2m.items() if isinstance(json.loads(v), int)]
+                dg = self.ctx.driver.ask1(dict(w, m="condheaders", cur=None, table=table))
+                as_coll_etag = self.etags.model_of(w["if_match"]) if w["if_match"] is not None else None
+                if r["method"] == "PUT":
+                    req["if_match_present"] = dg["put_digest"]["raw"]
+                    req["if_match"] = as_coll_etag if isinstance(as_coll_etag, dict) else dg["put_digest"]["if_match"]
+                    req["if_none_match_star"] = dg["put_digest"]["star"]
+                elif r["method"] == "DELETE":
+                    req["if_match_present"] = dg["delete_digest"]["present"]
+                    req["if_match"] = as_coll_etag if isinstance(as_coll_etag, dict) else dg["delete_digest"]["if_match"]
+                elif r["method"] == "MOVE":
+                    req["overwrite"] = dg["overwrites"]
+                elif r["method"] == "PROPFIND":
+                    req["depth1"] = dg["lists_children"]
+                self.wire_seen[r["method"] + ":" + "/".join("%s=%s" % (k, "current-or-known ETag" if k == "if_match" and v and v.startswith('"') and len(v) > 20 else repr(v))
+                                                            for k, v in sorted(w.items()) if v is not None)] += 1
             ans = self.ctx.driver.ask1(req)
             mst = ans["status"]
             # 403 NOT_ALLOWED is rewritten to 401 for anonymous users by the gate
@@ -375,6 +444,10 @@ def warmup(rng):
 
 
 def gen_request(rng, sim, known_etags):
+    return vary_wire(rng, _gen_request(rng, sim, known_etags))
+
+
+def _gen_request(rng, sim, known_etags):
     k = rng.random()
     coll = rng.choice(COLLS)
     item_path = rng.choice(COLLS[1:6]) + [rng.choice(HREFS)]
